@@ -11,9 +11,6 @@ Open Scope N_scope.
 
 Section Silent.
 Variables (sc : script) (m : N).
-(* the one case left out: a module with several start-up stages whose stereotype catches panics --
-   ModuleRef::module_restart goes on with the later stages after a caught panic of an earlier one *)
-Hypothesis Hst : c_stages (cfg sc m) = 1 \/ c_catch (cfg sc m) = false.
 Let sc' := quieten m sc.
 
 Lemma cfg_other i : i <> m -> cfg sc' i = cfg sc i.
@@ -197,19 +194,21 @@ Lemma restart_tail_agree now : forall tl s s' e, Forall (fun st => st <> 0) tl -
            (fst (fold_left (fun (acc : xs * bool) stage => if snd acc then acc else restart_stage (nmods sc') (cfg sc' m) now m stage (fst acc)) tl (s', e))).
 Proof.
   induction tl as [|st tl IH]; intros s s' e Hne H; cbn [fold_left fst snd]; [exact H|].
-  inversion Hne as [|x l Hx Hl]; subst. destruct e; [apply IH; assumption|]. rewrite at_sim_start_later by assumption.
+  inversion Hne as [|x l Hx Hl]; subst. destruct e; [apply IH; assumption|]. unfold restart_stage at 2 4.
+  rewrite at_sim_start_later by assumption.
   destruct (at_sim_start_agree (nmods sc) (cfg sc m) now m st s s' H) as [H1 H2].
   destruct (at_sim_start (nmods sc) (cfg sc m) now m st s) as [s1 e1], (at_sim_start (nmods sc) (cfg sc m) now m st s') as [s1' e1'].
-  cbn [fst snd] in *. subst e1'. apply IH; assumption.
+  cbn [fst snd] in *. subst e1'. rewrite (ag_act _ _ _ (proj1 H1) m). apply IH; assumption.
 Qed.
 
-Lemma restart_tail_div now w : forall tl s', Forall (fun st => st <> 0) tl -> Div m w (x_w s') ->
-  Div m w (x_w (fst (fold_left (fun (acc : xs * bool) stage => if snd acc then acc else restart_stage (nmods sc') (cfg sc' m) now m stage (fst acc)) tl (s', false)))).
+Lemma restart_tail_div now w : forall tl s' e, Forall (fun st => st <> 0) tl -> Div m w (x_w s') ->
+  Div m w (x_w (fst (fold_left (fun (acc : xs * bool) stage => if snd acc then acc else restart_stage (nmods sc') (cfg sc' m) now m stage (fst acc)) tl (s', e)))).
 Proof.
-  induction tl as [|st tl IH]; intros s' Hne H; cbn [fold_left fst snd]; [exact H|].
-  inversion Hne as [|x l Hx Hl]; subst. rewrite at_sim_start_later by assumption.
+  induction tl as [|st tl IH]; intros s' e Hne H; cbn [fold_left fst snd]; [exact H|].
+  inversion Hne as [|x l Hx Hl]; subst. destruct e; [apply IH; assumption|]. unfold restart_stage at 2.
+  rewrite at_sim_start_later by assumption.
   destruct (at_sim_start_div m (nmods sc) (cfg sc m) now st w s' Hx H) as [D1 D2].
-  destruct (at_sim_start (nmods sc) (cfg sc m) now m st s') as [s1 e1]. cbn [fst snd] in *. subst e1. apply IH; assumption.
+  destruct (at_sim_start (nmods sc) (cfg sc m) now m st s') as [s1 e1]. cbn [fst snd] in *. apply IH; assumption.
 Qed.
 
 Lemma module_restart_post now s s' : AgreeX m s s' ->
@@ -221,17 +220,15 @@ Proof.
     by (apply AgreeX_on_w; [exact H|]; apply (Agree_upd m _ _ (fun x => set_active x true) (proj1 H))).
   destruct (N.eq_dec (c_stages (cfg sc m)) 0) as [E0|E0]; [rewrite E0; left; exact (proj1 H0)|].
   destruct (stage_list_shape (c_stages (cfg sc m))) as (tl & Esl & Htl); [lia|]. rewrite Esl. cbn [fold_left fst snd].
+  unfold restart_stage at 2 4.
   destruct (at_sim_start0_flags now _ _ H0) as [(A1 & A2 & A3)|(D1 & D2 & D3 & D4)].
   - destruct (at_sim_start (nmods sc) (cfg sc m) now m 0 _) as [s1 e1], (at_sim_start (nmods sc') (cfg sc' m) now m 0 _) as [s1' e1'].
-    cbn [fst snd] in *. subst e1 e1'. left. apply (proj1 (restart_tail_agree now tl s1 s1' false Htl A1)).
-  - destruct (at_sim_start (nmods sc) (cfg sc m) now m 0 _) as [s1 e1], (at_sim_start (nmods sc') (cfg sc' m) now m 0 _) as [s1' e1'].
-    cbn [fst snd] in *. subst e1 e1'. right.
-    assert (Hcase : tl = [] \/ c_catch (cfg sc m) = false).
-    { destruct Hst as [H1|H1]; [left|right; exact H1]. rewrite H1 in Esl. unfold stage_list in Esl. cbn in Esl. injection Esl as <-. reflexivity. }
-    destruct Hcase as [-> |Hc].
-    + cbn [fold_left fst]. destruct (negb (c_catch (cfg sc m))); auto.
-    + rewrite Hc. cbn [negb]. rewrite fold_stopped by (intros; reflexivity). cbn [fst]. split; [|exact D2].
-      apply restart_tail_div; assumption.
+    cbn [fst snd] in *. subst e1 e1'. left. rewrite (ag_act _ _ _ (proj1 A1) m).
+    apply (proj1 (restart_tail_agree now tl s1 s1' _ Htl A1)).
+  - (* the panicking run leaves the stage loop: the module is inactive *)
+    destruct (at_sim_start (nmods sc) (cfg sc m) now m 0 _) as [s1 e1], (at_sim_start (nmods sc') (cfg sc' m) now m 0 _) as [s1' e1'].
+    cbn [fst snd] in *. rewrite D2. cbn [negb]. rewrite orb_true_r, fold_stopped by (intros; reflexivity). cbn [fst]. right.
+    split; [|exact D2]. apply restart_tail_div; assumption.
 Qed.
 
 (* the world after the event, from the post-callback relation *)
